@@ -44,7 +44,8 @@ func genT(t *rapid.T) TCase {
 	c.Up = Body{Len: rapid.SampledFrom(lens).Draw(t, "uplen"), Seed: rapid.Uint32().Draw(t, "upseed"), Chunk: rapid.SampledFrom([]int{1, 100, 4096, 65536}).Draw(t, "upchunk")}
 	c.Down = Body{Len: rapid.SampledFrom(lens).Draw(t, "downlen"), Seed: rapid.Uint32().Draw(t, "downseed"), Chunk: rapid.SampledFrom([]int{1, 100, 4096, 65536}).Draw(t, "downchunk")}
 	if c.Method != "GET" {
-		c.BodyLen = rapid.SampledFrom([]int{0, 10, 70000}).Draw(t, "bodylen")
+		// several MiB: more than the buffers between frps and frpc hold, so the request cannot be written out unless somebody reads it
+		c.BodyLen = rapid.SampledFrom([]int{0, 10, 70000, 8 << 20, 24 << 20}).Draw(t, "bodylen")
 	}
 	return c
 }
@@ -306,8 +307,18 @@ func runT(c TCase) error {
 			fmt.Fprintf(&b, "Content-Length: %d\r\n", bodyLen)
 		}
 		b.WriteString("\r\n")
-		b.Write(bytes.Repeat([]byte{'x'}, bodyLen))
-		go func() { _, _ = cn.Write(b.Bytes()) }()
+		go func() {
+			_, _ = cn.Write(b.Bytes())
+			blk := bytes.Repeat([]byte{'x'}, 64*1024)
+			for left := bodyLen; left > 0; left -= len(blk) {
+				if left < len(blk) {
+					blk = blk[:left]
+				}
+				if _, e := cn.Write(blk); e != nil {
+					return
+				}
+			}
+		}()
 		resp, e := http.ReadResponse(bufio.NewReader(cn), &http.Request{Method: method})
 		if e != nil {
 			return ans{err: e, took: time.Since(t0)}
@@ -337,20 +348,16 @@ func runT(c TCase) error {
 	if a.err != nil {
 		return fmt.Errorf("%s: the user got no HTTP answer within %d s: %v (after %v)", desc, c.TimeoutS+8, a.err, a.took)
 	}
-	if c.Kind == "unreachable" {
-		if a.status != 404 || !strings.Contains(strings.ToLower(a.body), "not found") {
-			return fmt.Errorf("%s: backend unreachable, the user got status %d (%d-byte body) instead of the not-found page", desc, a.status, len(a.body))
-		}
-		if a.took > 3*time.Second {
-			return fmt.Errorf("%s: backend unreachable, the not-found page took %v", desc, a.took)
-		}
-		return nil
+	// either answer is acceptable for either fault: the not-found page or a gateway timeout, in bounded time
+	notFound := a.status == 404 && strings.Contains(strings.ToLower(a.body), "not found")
+	if !notFound && a.status != 504 {
+		return fmt.Errorf("%s: the user got status %d (%d-byte body) after %v instead of the not-found page or a gateway timeout", desc, a.status, len(a.body), a.took)
 	}
-	if a.status != 504 {
-		return fmt.Errorf("%s: silent backend, the user got status %d after %v instead of a gateway timeout", desc, a.status, a.took)
+	if a.took > time.Duration(c.TimeoutS)*time.Second+3*time.Second {
+		return fmt.Errorf("%s: the error answer (%d) took %v (configured timeout %d s)", desc, a.status, a.took, c.TimeoutS)
 	}
-	if a.took < time.Duration(c.TimeoutS)*time.Second-200*time.Millisecond || a.took > time.Duration(c.TimeoutS)*time.Second+3*time.Second {
-		return fmt.Errorf("%s: silent backend, the gateway timeout came after %v (configured %d s)", desc, a.took, c.TimeoutS)
+	if c.Kind == "silent" && a.took < time.Duration(c.TimeoutS)*time.Second-200*time.Millisecond {
+		return fmt.Errorf("%s: silent backend, the user was answered %d after only %v although the configured timeout is %d s", desc, a.status, a.took, c.TimeoutS)
 	}
 	return nil
 }
